@@ -220,42 +220,40 @@ def run(pid, tier, replay):
         obs = chk.path("obs_enum.ndjson")
         core.run_bin(obj, ["tree-replay", cases, obs])
         core.log("[%s] replayed in %.1fs" % (pid, time.time() - t0))
-        t0 = time.time()
-        res = validate(chk, obs, shards=4 if quick else 12, workers=3 if quick else 2)
-        core.log("[%s] validated %d scenarios in %.1fs" % (pid, len(res[0]), time.time() - t0))
-        return parts, res
+        return parts, obs
 
     def rand_phase():
         # impl -> spec: seeded random long histories
-        t0 = time.time()
         robs = chk.path("obs_rand.ndjson")
         nr, ln = (40, 150) if quick else (600, 200)
         core.run_bin(obj, ["tree-rand", nr, ln, chk.seed, robs])
-        res = validate(chk, robs, shards=1 if quick else 8, workers=3 if quick else 2)
-        core.log("[%s] %d random histories of %d steps validated in %.1fs" % (pid, nr, ln, time.time() - t0))
-        return res
+        return robs
 
     with ThreadPoolExecutor(max_workers=3) as ex:
         f_mc = ex.submit(model_check, chk, pid)
         f_en = ex.submit(enum_phase)
-        f_rd = ex.submit(rand_phase)
+        robs = rand_phase()
+        parts, obs = f_en.result()
+        # one validation pass over all recorded scenarios (ids are disjoint: random ones start at 1 000 000)
+        t0 = time.time()
+        allobs = chk.path("obs_all.ndjson")
+        with open(allobs, "w") as f:
+            f.write(open(obs).read())
+            f.write(open(robs).read())
+        total, done, devs, mism = validate(chk, allobs, shards=4 if quick else 14, workers=3 if quick else 2)
+        core.log("[%s] validated %d scenarios in %.1fs" % (pid, len(total), time.time() - t0))
         f_mc.result()
-        parts, (scen, done, devs, mism) = f_en.result()
-        rscen, rdone, rdevs, rmism = f_rd.result()
     for _, g, _ in parts:
         chk.add_tlc(g)
     n_all, n_cov = parts[0][2], parts[1][2]
-    drift = classify(chk, pid, scen, done, devs, mism)
+    drift = classify(chk, pid, total, done, devs, mism)
+    n_rand = sum(1 for i in total if i >= 1000000)
     chk.add("enumerated_cases", n_all + n_cov)
-    chk.cov["exhaustive"] = len(scen) == n_all + n_cov
+    chk.cov["exhaustive"] = len(total) - n_rand == n_all + n_cov
     chk.cov["exhaustive_scope"] = "every at/remove history of length %d over 4 paths x 3 interfaces (%d), plus %d transition-cover histories" % (
         3 if quick else 4, n_all, n_cov)
-    total = dict(scen)
     n_done = len(done)
-    drift += classify(chk, pid, rscen, rdone, rdevs, rmism)
-    total.update(rscen)
-    n_done += len(rdone)
-    chk.add("random_cases", len(rscen))
+    chk.add("random_cases", n_rand)
 
     chk.add("traces_validated_against_impl", n_done)
     chk.cov["scenarios_stopped_at_unexplained_step"] = len(total) - n_done
@@ -266,9 +264,14 @@ def run(pid, tier, replay):
                        "evaluations = steps validated by TLC; distinct by operation sequence; non-trivial = at least one successful "
                        "registration and at least one removal / duplicate / failing operation")
     ids = sorted(total)
+    if pid == "C25":   # show histories in which a manager announced something
+        ids = [i for i in ids if any(st["sigs"] for st in total[i]["steps"])] or ids
     for i in (ids[len(ids) // 3], ids[len(ids) // 2], ids[-1]):
         s = total[i]
-        chk.sample({"id": i, "ops": ops_of(s)[:6], "last_step": {k: s["steps"][min(5, len(s["steps"]) - 1)].get(k) for k in (
+        j = min(5, len(s["steps"]) - 1)
+        if pid == "C25":
+            j = max(k for k in range(min(12, len(s["steps"]))) if s["steps"][k]["sigs"] or k == 0)
+        chk.sample({"id": i, "ops": ops_of(s)[:j + 1], "after_last_op": {k: s["steps"][j].get(k) for k in (
             "res", "look", "call", "intro", "kids", "listing", "sigs")}})
     chk.assumptions += [
         "the universe is 4 paths (root, /a, /a/b, /c) x {I1, I2, ObjectManager}; longer paths and other interface types behave alike",
